@@ -363,7 +363,9 @@ def run(req, boot):
     try:
         for i, prog in enumerate(program["threads"]):
             sched.add(SimThread(sched, i, prog, ev))
-        sched.run()
+        # locks that library code creates lazily *during* the run go through the seam too
+        with simlock.patched(MEASURED_DIR):
+            sched.run()
     finally:
         simlock.ACTIVE.sched = None
 
